@@ -344,6 +344,13 @@ func VerifC18_Handlers() {
 	for j := 0; j < cached; j++ {
 		st.Indexer.Items = append(st.Indexer.Items, env.Thing("ns", names[j], "uid-"+names[j]))
 	}
+	// the informer may still be in the middle of its initial LIST (the objects
+	// above stored and dispatched, HasSynced still false): a handler added in
+	// that window gets the replay of what is cached all the same
+	if rt.Bool("the-initial-list-is-still-in-progress") {
+		rt.Cover("handler-added-before-the-informer-synced")
+		st.Unsynced = true
+	}
 
 	var all []*verifEnt
 	// addTo registers a fresh handler through subscription sub and checks the
